@@ -1,0 +1,50 @@
+//go:build verif
+
+package syncer
+
+import (
+	"context"
+
+	"github.com/PowerDNS/lightningstream/lmdbenv/header"
+	"github.com/PowerDNS/lightningstream/snapshot"
+	"github.com/PowerDNS/lightningstream/syncer/cleaner"
+	"github.com/PowerDNS/lmdb-go/lmdb"
+)
+
+// Exported wrappers for verification harnesses (build tag verif only).
+
+func (s *Syncer) VerifMainToShadow(ctx context.Context, txn *lmdb.Txn, tsNano header.Timestamp) error {
+	return s.mainToShadow(ctx, txn, tsNano)
+}
+
+func (s *Syncer) VerifShadowToMain(ctx context.Context, txn *lmdb.Txn) error {
+	return s.shadowToMain(ctx, txn)
+}
+
+func (s *Syncer) VerifReadDBI(txn *lmdb.Txn, dbiName, origDBIName string, rawValues bool) (*snapshot.DBI, error) {
+	return s.readDBI(txn, dbiName, origDBIName, rawValues)
+}
+
+func (s *Syncer) VerifCleaner() *cleaner.Worker {
+	return s.cleaner
+}
+
+func (s *Syncer) VerifInstanceID() string {
+	return s.instanceID()
+}
+
+func VerifDupSortHackEncodeOne(e snapshot.KV) (snapshot.KV, error) {
+	return dupSortHackEncodeOne(e)
+}
+
+func VerifDupSortHackDecodeOne(e snapshot.KV) (snapshot.KV, error) {
+	return dupSortHackDecodeOne(e)
+}
+
+func VerifDupSortHackEncode(dbiMsg *snapshot.DBI) (*snapshot.DBI, error) {
+	return dupSortHackEncode(dbiMsg)
+}
+
+func VerifDupSortHackDecode(dbiMsg *snapshot.DBI) (*snapshot.DBI, error) {
+	return dupSortHackDecode(dbiMsg)
+}
